@@ -19,6 +19,7 @@ func checkC20(c *Check, a *Anchors) {
 	c20DecisionTable(c, a)
 	c20HTTPRefused(c, a)
 	c20FetchHonoursContext(c, a)
+	fieldNotClobberedOnError(c, a, "field-not-clobbered-on-error") // the cache fallback re-uses the node whose fetch just failed
 }
 
 func c20DecisionTable(c *Check, a *Anchors) {
@@ -31,13 +32,15 @@ func c20DecisionTable(c *Check, a *Anchors) {
 			continue
 		}
 		for _, call := range callsIn(b, false) {
-			if fn, ok := callee(b.Info(), call).(*types.Func); ok && fn.Name() == "ChecksumPrompt" {
+			// the function that WRITES the cache decides what is trusted; the download / prompt may live in helpers of it,
+			// which the path enumeration inlines
+			if fn, ok := callee(b.Info(), call).(*types.Func); ok && fn.Name() == "WriteChecksum" {
 				fb = b
 			}
 		}
 	}
 	if fb == nil {
-		c.Errorf("C20: the reader function that calls ChecksumPrompt was not found")
+		c.Errorf("C20: the reader function that writes the cache (WriteChecksum) was not found")
 		return
 	}
 	fn := c.P.SSAFunc(fb)
